@@ -12,7 +12,9 @@ use serde_json::Value;
 use vharness::checks::{self, CheckDef};
 use vharness::report::{evidence_json, KnownFindings, Partial, Tier};
 
-const VERIF_DIR: &str = "/verif";
+fn verif_dir() -> String {
+    std::env::var("VERIF_ROOT").unwrap_or_else(|_| "/verif".to_string())
+}
 
 fn find(id: &str) -> CheckDef {
     match checks::all().into_iter().find(|c| c.id == id) {
@@ -33,7 +35,7 @@ fn seed() -> u64 {
 
 fn run_sharded(def: &CheckDef, tier: Tier, shards: usize) -> Partial {
     let exe = std::env::current_exe().expect("current exe");
-    let dir = format!("{VERIF_DIR}/target/shards/{}-{}-{}", def.id, tier.name(), std::process::id());
+    let dir = format!("{}/target/shards/{}-{}-{}", verif_dir(), def.id, tier.name(), std::process::id());
     let _ = std::fs::remove_dir_all(&dir);
     std::fs::create_dir_all(&dir).expect("shard dir");
     let mut children = vec![];
@@ -144,7 +146,7 @@ fn main() {
                 }
             }
 
-            let known = KnownFindings::load(&format!("{VERIF_DIR}/known_findings.json"));
+            let known = KnownFindings::load(&format!("{}/known_findings.json", verif_dir()));
             let mut known_hit = vec![];
             let mut fresh = vec![];
             for v in &merged.violations {
@@ -156,7 +158,7 @@ fn main() {
                     None => fresh.push(v),
                 }
             }
-            let rdir = format!("{VERIF_DIR}/replays/{id}");
+            let rdir = format!("{}/replays/{id}", verif_dir());
             let mut lines = vec![];
             for v in &fresh {
                 let _ = std::fs::create_dir_all(&rdir);
@@ -173,9 +175,9 @@ fn main() {
             }
 
             let ev = evidence_json(&info, tier, seed(), &merged, wall, fresh.len(), &known_hit);
-            let _ = std::fs::create_dir_all(format!("{VERIF_DIR}/evidence"));
+            let _ = std::fs::create_dir_all(format!("{}/evidence", verif_dir()));
             std::fs::write(
-                format!("{VERIF_DIR}/evidence/{id}.json"),
+                format!("{}/evidence/{id}.json", verif_dir()),
                 serde_json::to_string_pretty(&ev).expect("json"),
             )
             .expect("write evidence");
